@@ -88,7 +88,7 @@ def run():
         corrupt("append", "outx", "C17.append_one_sample")
         corrupt("interval", "iter", "impl.interval_iter")
         corrupt("interval", "after_fsets", "impl.interval_flat_set")
-        corrupt("interval", "ext_const", "impl.interval_extend_constant")
+        corrupt("interval", "ext_const", "C17.interval_extend_constant")
     c.rule = ("one lattice point = (array a over {-2,0,1,3} or random dyadic values, derived increasing abscissa x, n, "
               "direction); each expands to calls of oversample_linspace/piecewise, extend_linspace (default and explicit "
               "lstart/rstop)/extend_constant, append_one_sample, rectangle/trapezoid integral (direct and dispatcher), "
